@@ -207,6 +207,22 @@ fn main() {
         )*};
     }
     hv!(0, 1, 127, 128, 16383, 16384);
+    // element type x capacity grid: the length prefix is sized by the element COUNT, whatever the element width
+    macro_rules! grid {
+        ($t:ty, $shape:expr, $max:expr; $($n:literal),*) => {$(
+            {
+                let mut v: heapless::Vec<$t, $n> = heapless::Vec::new();
+                for _ in 0..$n { let _ = v.push($max); }
+                emit(o, concat!("heapless::Vec<", stringify!($t), ",", stringify!($n), ">"), hvec($shape, $n), &[v, heapless::Vec::new()]);
+            }
+        )*};
+    }
+    grid!((), k("unit"), (); 1, 127, 128, 200, 16384);
+    grid!(u16, k("u16"), u16::MAX; 2, 42, 43, 63, 64, 127, 128);
+    grid!(u64, k("u64"), u64::MAX; 12, 13, 127, 128, 1638, 1639);
+    grid!([u8; 0], arr(k("u8"), 0), []; 127, 128);
+    grid!(Option<u8>, opt(k("u8")), Some(255u8); 63, 64, 65, 128);
+    grid!((u8, u32), tup(vec![k("u8"), k("u32")]), (255u8, u32::MAX); 21, 22, 127, 128);
     {
         let mut v: heapless::Vec<u32, 3> = heapless::Vec::new();
         for _ in 0..3 {
